@@ -57,7 +57,7 @@ def expected_fingerprints(blob):
     }
 
 
-def _check_kexinit(case):
+def _check_kexinit(case, notes=None):
     L = c07.lib()
     model = c07.decode(case['model'])
     payload = c07.message_reference(model)
@@ -107,7 +107,14 @@ def _locus(model, obj, blob, origin):
     return c07.locate_compose_difference(model, obj)[1], True
 
 
-def _check_key(case):
+def _definer(obj, attribute):
+    for cls in type(obj).__mro__:
+        if attribute in cls.__dict__:
+            return cls.__name__
+    return type(obj).__name__
+
+
+def _check_key(case, notes=None):
     L = c07.lib()
     model = c07.decode(case['model'])
     blob = c07.key_reference(model)
@@ -117,8 +124,9 @@ def _check_key(case):
     try:
         objects.append(('parsed', L.key.SshHostPublicKeyVariant.parse_exact_size(blob)))
     except Exception as e:  # pylint: disable=broad-except
-        inner = c07.locate_parse_failure(model)
-        findings.append(Finding('parse-fails:%s/%s' % (inner or (type(e).__name__, name)), {'error': repr(e)[:200]}))
+        # an unparsable blob is C07's finding; there is no parsed object whose fingerprint could be judged
+        if notes is not None:
+            notes.append('key:reference-blob-not-parsable(C07):' + type(e).__name__)
     if case.get('construct', True) and c07._constructible(model):  # pylint: disable=protected-access
         try:
             objects.append(('constructed', c07.lib_key(model)))
@@ -150,12 +158,14 @@ def _check_key(case):
                 hashed=bytes(obj.key_bytes).hex()[:240], got=got.get(_hash_members()[0][1]) if got else None,
                 expected=want['SHA2_256'])))
         else:
+            # the hashed bytes are right, the rendering is not: the locus is the class that defines the observer
             for label in wrong:
                 member = dict(_hash_members())[label]
-                findings.append(Finding('fingerprint:%s/%s' % (label, locus), dict(detail, got=got.get(member), expected=want[label])))
+                findings.append(Finding('fingerprint:%s/%s' % (label, _definer(obj, 'fingerprints')),
+                                        dict(detail, got=got.get(member), expected=want[label])))
             if known_hosts_wrong:
-                findings.append(Finding('known-hosts/%s' % locus, dict(detail, got=str(as_dict.get('known_hosts'))[:160],
-                                                                     expected=want_known_hosts[:160])))
+                findings.append(Finding('known-hosts/%s' % _definer(obj, 'host_key_asdict'), dict(
+                    detail, got=str(as_dict.get('known_hosts'))[:160], expected=want_known_hosts[:160])))
         if as_dict is not None and got is not None and as_dict.get('fingerprints') is not None \
                 and dict(as_dict['fingerprints']) != dict(got):
             findings.append(Finding('fingerprint:asdict-differs/%s' % locus, detail))
@@ -167,11 +177,11 @@ def _check_key(case):
     return out
 
 
-def check_case(case):
+def check_case(case, notes=None):
     if case['kind'] == 'kexinit':
-        return _check_kexinit(case)
+        return _check_kexinit(case, notes)
     if case['kind'] == 'key':
-        return _check_key(case)
+        return _check_key(case, notes)
     raise ValueError(case['kind'])
 
 
@@ -226,7 +236,11 @@ def case_fn(case, stats):
     if nontrivial:
         stats.nontriv(reference)
         stats.sample(sorted(labels)[-1], {'case': c07.jdump_short(case, 500), 'reference_length': len(reference)})
-    return check_case(case)
+    notes = []
+    findings = check_case(case, notes)
+    for note in notes:
+        stats.label(note)
+    return findings
 
 
 def _shard(arg):
